@@ -178,6 +178,8 @@ def case_worker(case):
         elif opts["blacklist"] == "subpkg":
             subs = [m[0] for m in modules if m[1] == "package"]
             bl = subs[:1]
+        if bl and opts.get("pad_lists"):
+            bl = bl + ["no.such.legacy"]        # the option given more than once: every occurrence counts, not only the last one
         for b in bl:
             argv += ["--blacklist", b]
         wl = []
@@ -185,6 +187,8 @@ def case_worker(case):
             wl = [module]
         elif opts["whitelist"] == "other":
             wl = ["no.such.module"]
+        if wl and opts.get("pad_lists") and opts["whitelist"] == "other":
+            wl = wl + ["no.such.other"]
         for w_ in wl:
             argv += ["--whitelist", w_]
         res["argv"] = argv[1:]
@@ -272,7 +276,7 @@ def gen_cases(ctx):
             "out_exists": rng.random() < 0.5,
             "sqla_sub": rng.random() < 0.5 if any(e.startswith("sqlalchemy") for e in emit) else rng.random() < 0.1,
             "blacklist": rng.choice([None, None, None, "root", "subpkg"]),
-            "whitelist": rng.choice([None, None, None, None, "root", "other"]),
+            "whitelist": rng.choice([None, None, None, None, "root", "other"]), "pad_lists": rng.random() < 0.5,
             "top": rng.choice(["pkga", "zoo", "mylib"]),
             "outer": rng.choice([None, "outerp"]),
             "prior_real_run": rng.random() < 0.3,
@@ -292,6 +296,10 @@ def gen_cases(ctx):
         for rec in (False, True):
             cases.append((11 + len(cases), {"emit": ["class"], "recursive": rec, "dry_run": False, "out_exists": False, "sqla_sub": False,
                                             "blacklist": "root", "whitelist": "root", "top": top, "outer": outer}))
+    # --blacklist given twice, the module to omit named by the FIRST occurrence
+    for top, outer, bl in (("pkga", "outerp", "root"), ("pkga", None, "root"), ("pkga", "outerp", "subpkg")):
+        cases.append((13 + len(cases), {"emit": ["class"], "recursive": True, "dry_run": False, "out_exists": False, "sqla_sub": False,
+                                        "blacklist": bl, "whitelist": None, "top": top, "outer": outer, "pad_lists": True}))
     return cases
 
 
